@@ -6,6 +6,6 @@ CONSTANTS
   Packages = {}
   K = 3
   Fmts = {"xlsx", "pptx", "epub"}
-  Wide = FALSE
+  Wide = "some"
 CONSTRAINT Emit
 CHECK_DEADLOCK FALSE
